@@ -45,7 +45,7 @@ type loopInfo struct {
 	ord        int
 	spec       *LoopSpec
 	havocCells map[*ssa.Alloc]bool
-	havocHeap  map[string]bool
+	havocHeap  map[string]string // name -> sort
 	headState  *State
 	dec0       Term
 	body       map[*ssa.BasicBlock]bool
@@ -648,7 +648,7 @@ func (fe *FnExec) findLoops(fr *frame) {
 	}
 	sort.Slice(hs, func(i, j int) bool { return hs[i].Index < hs[j].Index })
 	for i, h := range hs {
-		li := &loopInfo{head: h, ord: i, havocCells: map[*ssa.Alloc]bool{}, havocHeap: map[string]bool{}, body: map[*ssa.BasicBlock]bool{h: true}}
+		li := &loopInfo{head: h, ord: i, havocCells: map[*ssa.Alloc]bool{}, havocHeap: map[string]string{}, body: map[*ssa.BasicBlock]bool{h: true}}
 		if fr.con != nil {
 			li.spec = fr.con.Loops[i]
 		}
@@ -1050,9 +1050,14 @@ func (fe *FnExec) enterLoop(fr *frame, li *loopInfo, st *State) {
 	for _, c := range cs {
 		if _, ok := st.cells[c]; ok {
 			st.cells[c] = fe.freshVal(c.Type().(*types.Pointer).Elem(), "lp."+c.Comment)
+			if c.Comment == "rangeindex" {
+				// structural invariant of go/ssa's range lowering: the index starts at -1 and only increments
+				fe.assume(tAnd(sx("<=", "(- 1)", fe.intTerm(st.cells[c])), sx("<", fe.intTerm(st.cells[c]), maxLen)), "range index in [-1, len)")
+			}
 		}
 	}
 	for _, h := range sortedKeys(li.havocHeap) {
+		fe.heapGet(st, h, li.havocHeap[h])
 		fe.heapFresh(st, h)
 	}
 	if len(st.defers) > 0 {
@@ -1089,8 +1094,8 @@ func (fe *FnExec) backEdge(fr *frame, li *loopInfo, st *State) {
 			}
 		}
 		for h, t := range st.heap {
-			if fe.heapGet(li.headState, h, fe.heapSort[h]) != t && !li.havocHeap[h] {
-				li.havocHeap[h] = true
+			if _, have := li.havocHeap[h]; fe.heapGet(li.headState, h, fe.heapSort[h]) != t && !have {
+				li.havocHeap[h] = fe.heapSort[h]
 				fe.changed = true
 			}
 		}
